@@ -1423,6 +1423,12 @@ class Engine:
             name = fn.name
         else:
             name = callee.name; fn = s.mod.funcs.get(name)
+        skip = getattr(s, 'opts', {}).get('skipfn')
+        if skip and any(k in name for k in skip.split(',')):
+            # scenario-declared diagnostics-only function (logging): not executed; listed in the evidence assumptions
+            s.fn_seen.add(name + ' [skipped: diagnostics only]')
+            if ins.res is not None: f.regs[ins.res] = 0
+            return
         if fn is not None and fn.defined:
             work = s.work
             outs = s.exec_fn(p, fn, args)
@@ -1449,7 +1455,7 @@ class Engine:
         if n in ('_ZdlPvmSt11align_val_t', '_ZdlPv', '_ZdlPvm', 'free', '_ZdaPv', '_ZdlPvSt11align_val_t'): return 0
         if n.startswith('llvm.memset'):
             dst, byte, ln = a[0], a[1], a[2]
-            if not is_c(ln): raise Unsupported('symbolic memset length')
+            if not is_c(ln): raise Unsupported('symbolic memset length in %s: %s' % (f.fn.name[:120], str(ln)[:200]))
             i = 0
             while i < ln:
                 c = 8 if ln - i >= 8 and (not is_c(dst) or (dst + i) % 8 == 0) else 1
@@ -1550,6 +1556,12 @@ class Engine:
         if n in ('nanosleep',): return 0
         if n in ('_ZNSt8ios_base4InitC1Ev', '_ZNSt8ios_base4InitD1Ev', '_ZNSt3pmr15memory_resourceD2Ev'): return 0
         if n == 'sysconf': return 4096
+        if n == '_ZN7babylon13LoggerManager8instanceEv':
+            # logging is not modelled: the root logger's min_severity byte is above every severity, so BABYLON_LOG statements are skipped
+            if not getattr(s, 'logger_init', False):
+                s.logger_init = True
+                for i in range(192): s.init_mem.store(0x7200 + i, 1, 0x7f)
+            return 0x7200
         if n == '_ZNSt3pmr19new_delete_resourceEv': return 0x7100      # opaque default upstream (harnesses install their own)
         if n in ('pthread_mutex_lock', 'pthread_mutex_trylock'):
             # a mutex is a lock word: acquire-RMW 0 -> 1; executions in which the lock is held at that moment are excluded
